@@ -563,8 +563,9 @@ def execute(case, chooser, visited=None, rolling=None):
             elif kind == 'CANCEL':
                 v = builds[x]
                 waiter = getattr(v.task, '_fut_waiter', None)
-                v.cancel_phase = ('selecting' if v.selecting else 'selected' if v.claims and v.phase == 'building'
-                                  else v.phase) + \
+                # 'releasing': the build is already failing and lbry's own handler is inside ledger.release_outputs
+                v.cancel_phase = ('selecting' if v.selecting else 'releasing' if v.releasing else
+                                  'selected' if v.claims and v.phase == 'building' else v.phase) + \
                     ('+job-ran' if any(j.fut is waiter and j.state == 'ran' for j in loop.jobs) else '')
                 if v.cancel_phase.endswith('+job-ran'):
                     witnesses.add('cancel_between_job_run_and_done')
